@@ -49,6 +49,9 @@ MEM_LIMIT_KB = int(os.environ.get("CV_MEM_KB", 7_000_000))
 JOBS = int(os.environ.get("CV_JOBS", 8))
 THOROUGH_MEM_KB = int(os.environ.get("CV_THOROUGH_MEM_KB", 14_000_000))
 THOROUGH_JOBS = int(os.environ.get("CV_THOROUGH_JOBS", 4))
+# concrete playback runs one harness at a time and needs far more memory than the verdict alone (CBMC builds the
+# full trace): measured 7 GB not enough (every check comes back "Error", no test is printed) where the verdict took 2 GB
+PLAYBACK_MEM_KB = int(os.environ.get("CV_PLAYBACK_MEM_KB", 30_000_000))
 
 
 def log(*a):
@@ -141,8 +144,14 @@ def run_kani(harnesses, timeout_s, tag, jobs=None, playback=False):
         j = max(1, min(j, len(harnesses)))
         cmd += ["-j", str(j), "--output-format", "terse"]
     t0 = time.time()
-    with open(out_log, "w") as lf:
-        p = subprocess.run(cmd, cwd=HARNESS, env=ENV, stdout=lf, stderr=subprocess.STDOUT, preexec_fn=limit_mem)
+    saved = _MEM["kb"]
+    if playback:
+        _MEM["kb"] = max(saved, PLAYBACK_MEM_KB)
+    try:
+        with open(out_log, "w") as lf:
+            p = subprocess.run(cmd, cwd=HARNESS, env=ENV, stdout=lf, stderr=subprocess.STDOUT, preexec_fn=limit_mem)
+    finally:
+        _MEM["kb"] = saved
     wall = time.time() - t0
     raw = open(out_log, errors="replace").read()
     results = parse_results(harnesses, out_json, raw)
